@@ -44,6 +44,9 @@ func scenarios(tier string) []svc.Scenario {
 		{Name: "converter-attached-late", Converter: true, Program: []string{"import:P1", "addtag:tag/p=cport:1", "import:P2", "converters:tag/p=conv"}},
 		// a tag that refers to another tag from a sub-query: evaluated for all streams or none
 		{Name: "subquery-tag", Program: []string{"import:P1+P2", "addtag:tag/b=cport:1", "addtag:tag/t=@sub:tag:b sport:@sub:sport@", "import:P3", "import:P4"}},
+		// a conversion job that finds everything cached already (its tag was re-evaluated without a new match)
+		// while more work is queued behind it
+		{Name: "converter-fruitless-job", Converter: true, Program: []string{"import:P1+P2", "addtag:tag/p=cport:1", "addtag:tag/q=sport:80", "converters:tag/p=conv", "import:P5", "converters:tag/q=conv"}},
 		{Name: "two-tags", Program: []string{"addtag:tag/p=cport:1", "addtag:tag/d=cdata:foo3", "import:P1", "import:P3"}},
 	}
 	if tier == "thorough" {
